@@ -377,6 +377,44 @@ def expectedDump (val : Val) (c : Cluster) (o : Options) : DumpResult :=
   (c.dbs.live.filter (selectedDb o)).filterMap fun db =>
     (c.content.lookup db.oid).map (expectedDb val o db)
 
+/-! ## What the other access paths must expose (C12) -/
+
+/-- a relation listing entry: (oid, filenode, name, relkind) -/
+structure RelEntry where
+  oid : Nat
+  filenode : Nat
+  name : Bytes
+  kind : Bytes
+deriving Repr, DecidableEq, Inhabited
+
+def insertRel (t : RelEntry) : List RelEntry → List RelEntry
+  | [] => [t]
+  | u :: us => if t.filenode ≤ u.filenode then t :: u :: us else u :: insertRel t us
+
+/-- every relation with storage of a database (any relkind), in filenode order -/
+def expectedRels (d : DbContent) : List RelEntry :=
+  ((d.cls.live.filter (·.filenode != 0)).map fun r => (⟨r.oid, r.filenode, r.name, [UInt8.ofNat r.kind]⟩ : RelEntry)).foldr insertRel []
+
+/-- the documented omissions of the remote dump: empty tables and sql_* tables (pg_* are system tables) -/
+def remoteKeeps (t : TableDump) : Bool := t.rows.length > 0 && !isPrefixB (strBytes "sql_") t.name
+
+def expectedRemoteDb (val : Val) (db : DbRow) (d : Option DbContent) : DatabaseDump :=
+  match d with
+  | some d => let e := expectedDb val {} db d; { e with tables := e.tables.filter remoteKeeps }
+  | none => { oid := db.oid, name := db.name, tables := [] }
+
+/-- names differing only in case: an exact match wins, otherwise the unique case-insensitive match;
+`none` when there is no match; the spec is silent (`none` of the outer option) when several
+case-insensitive matches exist and none is exact -/
+def lookupName {α} (name : α → Bytes) (l : List α) (n : Bytes) : Option (Option α) :=
+  match l.find? (fun x => name x == n) with
+  | some x => some (some x)
+  | none =>
+    match l.filter (fun x => lowerB (name x) == lowerB n) with
+    | [] => some none
+    | [x] => some (some x)
+    | _ => none
+
 /-! ## Well-formedness -/
 
 def nameOK (n : Bytes) : Prop := 1 ≤ n.length ∧ n.length ≤ 63 ∧ (0 : UInt8) ∉ n
@@ -391,6 +429,7 @@ def pagesFit (pages : List (List Tuple)) : Prop := ∀ ts ∈ pages, pageNeed ts
 instance (pages : List (List Tuple)) : Decidable (pagesFit pages) := by unfold pagesFit; infer_instance
 
 def DbContent.WF (l : Layout) (d : DbContent) : Prop :=
+  d.cls ≠ [] ∧
   ((d.cls.live.map (·.oid)).Nodup) ∧
   (((d.cls.live.filter (·.filenode != 0)).map (·.filenode)).Nodup) ∧
   (∀ s ∈ d.cls.versions, nameOK s.val.name ∧ s.val.oid < 2 ^ 32 ∧ 0 < s.val.oid ∧ s.val.filenode < 2 ^ 32 ∧
